@@ -208,6 +208,16 @@ func gen(g *vh.Gen) {
 			g.Emit("start", st, "3600", "63000", vh.HS("a")+":5,90000,40,3800;"+vh.HS("b")+":7000;"+vh.HS("c")+":9")
 		}
 	}
+	// cancellation with RetentionSleep 0 / 1 ns: at the callback end the expired sleep timer races with ctx.Done,
+	// the scan may stop there or go on; whatever it does it deletes nothing young and keeps what it did not reach
+	for i := 0; i < g.N(15, 400); i++ {
+		p := periods[1+g.Intn(len(periods)-1)]
+		b, _, _ := boxes(g, p, 2+g.Intn(4))
+		c := fmt.Sprint(1+g.Intn(2)) + g.Pick("z", "n")
+		for _, st := range []string{"mem", "file"} {
+			g.Emit("scan", st, fmt.Sprint(p), b, "-", c)
+		}
+	}
 	// the run loop: disabled for period <= 0; exits on cancel; Join returns
 	for i := 0; i < g.N(6, 60); i++ {
 		b, _, _ := boxes(g, 0, 1+g.Intn(3))
